@@ -410,7 +410,8 @@ func checkC05(c *Ctx) {
 	// 4. input-variable texts
 	vin := []string{"", "A = 1", "A = 1；B = “x”", "A设为【1，2】", "A = B", "A = 其B", "A =（显示：1）", "A = 1 +", "令A = 1", "如果真：\n\tA = 1", "A#1 = 2", "A之B = 3", "1 = 2", "A = 新建", "A =（新建异常：“x”）", "A = 1 / 0", "A = “未闭合", "A = `", "：", "注：", "A = 【1，2】#3", "A = 以1（加：2）", "A = 真 且 1", "A = 其", "A = 此", "= 1", "A == 1", "A = 1\nB = A", "A = {1 + 2} * 3", "输入A", "输出 1", "抛出异常：“x”！", "A = （取随机数）",
 		// texts that parse to a program without any statement
-		"\n", "\n\n\n", "\r\n", "注：只有一行注释", "注：「多行\n注释」\n", "/* 块 */", "// 行", "导入《@JSON》", "导入“不存在”", "；", "；；", "\t", "A = 1\n\n", "\nA = 1", "注：x\nA = 1"}
+		"\n", "\n\n\n", "\r\n", "注：只有一行注释", "注：「多行\n注释」\n", "/* 块 */", "// 行", "导入《@JSON》", "导入“不存在”", "；", "；；", "\t", "A = 1\n\n", "\nA = 1", "注：x\nA = 1",
+		"折扣 = 10 %", "乙 = 2 % 3 %d", "甲 = “100%” +", "A = 5 %s %v", "%", "A = 1 %"}
 	for i := 0; i < c.Pick(3000, 100000); i++ {
 		base := []rune(vin[rng.Intn(len(vin))])
 		if len(base) > 0 && rng.Intn(2) == 0 {
@@ -435,6 +436,16 @@ func checkC05(c *Ctx) {
 		c.Eval()
 		c.Count("varinput_"+resp.Kind, 1)
 		c.Nontrivial("varinput/" + resp.Kind)
+		if resp.Kind == "error" && resp.Err != nil {
+			// the message quotes the text: it must quote it as it is (a Go formatting artefact
+			// such as %!d(MISSING) means the text went through a format string)
+			for _, m := range []string{resp.Err.Msg, resp.Err.Text} {
+				if strings.Contains(m, "%!") && !strings.Contains(vin[i], "%!") {
+					c.Violation("varinput:format-artefact:"+vin[i], fmt.Sprintf("the error for input-variable text %q quotes a text that is not the input: %q", clip(vin[i], 120), clip(m, 200)), map[string]interface{}{"req": req})
+					break
+				}
+			}
+		}
 		switch resp.Kind {
 		case "ok", "error":
 		default:
